@@ -45,13 +45,35 @@ def Cli.open (c : Cli) : Cli :=
 
 def Cli.reopen (c : Cli) : Cli := c.close.open
 
-/-- `accept`: `connect_ex` returned `rc` -/
+/-- what `Client.accept()` does with a result of `connect_ex` (regenerated table, probed over every errno) -/
+inductive COutcome where
+  | connected | retry | reopen | raisedOS | raisedOther
+deriving DecidableEq, Repr
+
+def connectLookup (rc : Nat) : COutcome :=
+  if rc = 0 then .connected
+  else match assoc Gen.Tcp.clientConnect rc with
+    | some 0 => .connected
+    | some 1 => .retry
+    | some 2 => .reopen
+    | some 3 => .raisedOS
+    | some _ => .raisedOther
+    | none => .retry
+
+/-- `accept`: `connect_ex` returned `rc` (the state part; what escapes is `acceptExn`) -/
 def Cli.accept (c : Cli) (rc : Nat) : Cli :=
   let c := if c.cs.isNone then c.reopen else c
-  if rc = 0 ∨ rc = Gen.Tcp.eisconn then
+  match connectLookup rc with
+  | .connected =>
     { c with accepted := true, connected := if c.tls then c.connected else true, io := { c.io with cutoff := false } }
-  else if rc = Gen.Tcp.einval ∨ rc = Gen.Tcp.econnrefused then c.reopen
-  else c
+  | .reopen => c.reopen
+  | _ => c
+
+def Cli.acceptExn (rc : Nat) : Option Exn :=
+  match connectLookup rc with
+  | .raisedOS => some .osError
+  | .raisedOther => some .other
+  | _ => none
 
 def Cli.hsFault (c : Cli) (code : Nat) : Cli × Option Exn :=
   match clientHsLookup code with
@@ -69,10 +91,12 @@ def Cli.handshake (c : Cli) : Cli × Option Exn :=
 
 /-- `connect()`: plain = `accept()`; TLS = accept, wrap, handshake -/
 def Cli.connect (c : Cli) (rc : Nat) : Cli × Option Exn :=
-  if !c.tls then (c.accept rc, none)
+  if !c.tls then (c.accept rc, Cli.acceptExn rc)
   else
     let c1 := if c.accepted then c else c.accept rc
-    if c1.accepted ∧ !c1.connected then c1.handshake else (c1, none)
+    match (if c.accepted then none else Cli.acceptExn rc) with
+    | some e => (c1, some e)
+    | none => if c1.accepted ∧ !c1.connected then c1.handshake else (c1, none)
 
 /-- the retry tymer has run out: `self.tymeout > 0.0 and self.tymer.expired` -/
 def Cli.timedOut (c : Cli) : Bool := decide (0 < c.tymeout) && decide (c.tstop ≤ c.now)
